@@ -305,6 +305,27 @@ func Execute(sc *Scn) *Result {
 	case "close":
 		open.Store(false)
 		call("Close", vx.Close, res)
+	case "close-async":
+		// the shutdown comes from another goroutine (as the signal handler's does) while the main
+		// goroutine is drawing and rendering
+		open.Store(false)
+		rdone := make(chan struct{})
+		go func() {
+			defer close(rdone)
+			for f := 0; f < 40; f++ {
+				win := vx.Window()
+				win.SetCell(f%20, f%5, vaxis.Cell{Character: vaxis.Character{Grapheme: "r", Width: 1}})
+				vx.ShowCursor(f%3, 0, vaxis.CursorBlock)
+				vx.Render()
+			}
+		}()
+		time.Sleep(time.Duration(rng.Intn(300)) * time.Microsecond)
+		call("Close beside Render", vx.Close, res)
+		select {
+		case <-rdone:
+		case <-time.After(3 * time.Second):
+			res.Stuck = append(res.Stuck, "Render blocked after Close")
+		}
 	case "close-close":
 		open.Store(false)
 		if call("Close", vx.Close, res) {
@@ -385,7 +406,7 @@ func Gen(rng *rand.Rand) *Scn {
 	sc := &Scn{Kind: "concurrent", QSize: []int{1, 2, 4, 1024}[rng.Intn(4)], Mask: rng.Intn(1 << 15),
 		Keys: []int{0, 3, 10, 40}[rng.Intn(4)], Chunk: 1 + rng.Intn(5),
 		Reader: []string{"drain", "drain", "slow", "none"}[rng.Intn(4)], Query: rng.Intn(3) == 0, Render: rng.Intn(6),
-		WriteLag: rng.Intn(3) == 0, LoneEsc: rng.Intn(3) == 0, End: []string{"close", "close", "close-close", "suspend-close", "suspend-resume-close"}[rng.Intn(5)],
+		WriteLag: rng.Intn(3) == 0, LoneEsc: rng.Intn(3) == 0, End: []string{"close", "close", "close-close", "suspend-close", "suspend-resume-close", "close-async"}[rng.Intn(6)],
 		Seed: rng.Int63()}
 	if sc.Reader == "none" {
 		// a query needs its reply handled, which needs the event queue to be
@@ -412,6 +433,8 @@ func Fixed() []*Scn {
 		{Kind: "lone-esc-close", QSize: 1024, Keys: 2, Chunk: 2, Reader: "drain", LoneEsc: true, End: "close", Seed: 5},
 		{Kind: "lone-esc-close", QSize: 1024, Keys: 2, Chunk: 2, Reader: "drain", LoneEsc: true, End: "suspend-resume-close", Seed: 6},
 		{Kind: "posters-order", QSize: 4, Reader: "slow", Posters: []Poster{{"blocking", 30}, {"blocking", 30}, {"sync", 20}}, Render: 5, End: "close", Seed: 7},
+		{Kind: "close-beside-render", QSize: 1024, Keys: 2, Chunk: 2, Reader: "drain", End: "close-async", Seed: 11},
+		{Kind: "close-beside-render", QSize: 4, Keys: 10, Chunk: 3, Reader: "slow", Render: 3, End: "close-async", Seed: 12},
 		{Kind: "slow-write-close", QSize: 1024, Keys: 2, Chunk: 2, Reader: "drain", WriteLag: true, End: "close", Seed: 9},
 		{Kind: "slow-write-suspend", QSize: 1024, Reader: "drain", WriteLag: true, End: "suspend-resume-close", Seed: 10},
 		{Kind: "query-render", QSize: 1024, Mask: 1<<15 - 1, Reader: "drain", Query: true, Render: 5, End: "close", Seed: 8},
